@@ -58,9 +58,10 @@ example : makeSliceAndPad 7 12 10 = .ok ((7, 10), (0, 2), true) := by rfl
 
 /-! ## the crop window of `prepare_affine` -/
 
-/-- The window always has `s + 2·order + 1` voxels. -/
+/-- The window has `s + 2·order + 1` voxels, one more for nearest-neighbour sampling (`order = 0`). -/
 theorem window_width (c : Rat) (s order : Int) :
-    (prepareAffineAxis c s order).2.1 - (prepareAffineAxis c s order).1 = s + 2 * order + 1 := by
+    (prepareAffineAxis c s order).2.1 - (prepareAffineAxis c s order).1
+      = s + 2 * order + 1 + (if order = 0 then 1 else 0) := by
   simp only [prepareAffineAxis]; omega
 
 /-- **Coordinate rule.** The tomogram coordinate sampled for an output voxel whose rotated offset
@@ -90,9 +91,12 @@ theorem window_margin (c t : Rat) (s order : Int)
   generalize hq : (c - (s : Rat) / 2 - (order : Rat)) = q
   have h1 := Py.trunc_gt q
   have h2 := Py.trunc_le_max q
-  have hX : (((Py.trunc q + s + 2 * order + 1 : Int)) : Rat)
-        = (Py.trunc q : Rat) + (s : Rat) + 2 * (order : Rat) + 1 := by
+  have hM : (0 : Int) ≤ (if order = 0 then (1 : Int) else 0) := by split <;> omega
+  generalize (if order = 0 then (1 : Int) else 0) = mg at *
+  have hX : (((Py.trunc q + s + 2 * order + 1 + mg : Int)) : Rat)
+        = (Py.trunc q : Rat) + (s : Rat) + 2 * (order : Rat) + 1 + (mg : Rat) := by
       simp [Rat.intCast_add, Rat.intCast_mul]
+  have hMq : (0 : Rat) ≤ (mg : Rat) := by exact_mod_cast hM
   constructor
   · rcases h2 with h2 | h2
     · left; grind
@@ -121,23 +125,24 @@ theorem window_covers (c t : Rat) (s order i : Int) (ho : 1 ≤ order)
   · have : (i : Rat) < (x1 : Rat) := by grind
     exact Rat.intCast_lt_intCast.mp this
 
-/-- Nearest-neighbour loading (`order = 0`): the window contains the sampled coordinate provided
-the truncation of `c - s/2` loses at most half a voxel. (Without that hypothesis the statement is
-false on the current tree: `c = 51/5, s = 5` samples `t = 61/5 > x1 - 1 = 12`; this is recorded as
-a known finding and replayed on the real loader.) -/
-theorem window_order0_partial (c t : Rat) (s : Int)
-    (ht1 : c - ((s : Rat) - 1) / 2 ≤ t) (ht2 : t ≤ c + ((s : Rat) - 1) / 2)
-    (hfrac : c - (s : Rat) / 2 - 1 / 2 ≤ ((prepareAffineAxis c s 0).1 : Rat)) :
-    (((prepareAffineAxis c s 0).1 : Rat) ≤ t ∨ (prepareAffineAxis c s 0).1 ≤ 0)
-      ∧ t ≤ (((prepareAffineAxis c s 0).2.1 : Int) : Rat) - 1 := by
-  have hm := window_margin c t s 0 ht1 ht2
-  simp only [prepareAffineAxis] at *
+/-- **Nearest-neighbour loading (`order = 0`)**: every sampled coordinate of the box lies inside the
+window with half a voxel to spare on both sides, so the voxel it rounds to is a window voxel and scipy's
+`mode="constant"` never replaces it by the fill value. (Before the extra voxel was added this failed
+whenever `frac(c - s/2) > 1/2`: `c = 51/5, s = 5` sampled `t = 61/5` beyond the last index 12.) -/
+theorem window_order0 (c t : Rat) (s : Int)
+    (ht1 : c - ((s : Rat) - 1) / 2 ≤ t) (ht2 : t ≤ c + ((s : Rat) - 1) / 2) :
+    (((prepareAffineAxis c s 0).1 : Rat) + 1 / 2 ≤ t ∨ (prepareAffineAxis c s 0).1 ≤ 0)
+      ∧ t + 1 / 2 < (((prepareAffineAxis c s 0).2.1 : Int) : Rat) - 1 := by
+  simp only [prepareAffineAxis, if_true]
   generalize hq : (c - (s : Rat) / 2 - ((0 : Int) : Rat)) = q at *
-  have hX : (((Py.trunc q + s + 2 * 0 + 1 : Int)) : Rat) = (Py.trunc q : Rat) + (s : Rat) + 1 := by
-      simp [Rat.intCast_add]
+  have h1 := Py.trunc_gt q
+  have h2 := Py.trunc_le_max q
+  have hX : (((Py.trunc q + s + 2 * 0 + 1 + 1 : Int)) : Rat) = (Py.trunc q : Rat) + (s : Rat) + 2 := by
+      have : (Py.trunc q + s + 2 * 0 + 1 + 1 : Int) = Py.trunc q + s + 2 := by omega
+      rw [this]; simp [Rat.intCast_add]
   have h0 : ((0 : Int) : Rat) = 0 := by simp
   constructor
-  · rcases hm.1 with h | h
+  · rcases h2 with h | h
     · left; grind
     · right; exact h
   · rw [hX]; grind
@@ -162,7 +167,9 @@ theorem cs_window_nonempty (c maxLen : Rat) (order : Int) (hL : 0 ≤ maxLen) (h
   have h2 : ((2 * order : Int) : Rat) = 2 * (order : Rat) := by simp [Rat.intCast_mul]
   have : (x0 : Rat) < ((Py.trunc ((x0 : Rat) + maxLen + ((2 * order : Int) : Rat) + 1) : Int) : Rat) := by
     grind
-  exact Rat.intCast_lt_intCast.mp this
+  have hlt := Rat.intCast_lt_intCast.mp this
+  have hM : (0 : Int) ≤ (if order = 0 then (1 : Int) else 0) := by split <;> omega
+  omega
 
 /-- **Corner-safe window covers the support.** `maxLen` is the diagonal length of the output box
 (the float the code computes; any rational here). Every in-bounds index `i` within the
@@ -188,13 +195,41 @@ theorem cs_window_covers (c t maxLen H : Rat) (order i : Int) (ho : 0 ≤ order)
   have h2o : ((2 * order : Int) : Rat) = 2 * (order : Rat) := by simp [Rat.intCast_mul]
   have h3 := Py.trunc_gt ((x0 : Rat) + maxLen + ((2 * order : Int) : Rat) + 1)
   generalize hx1 : Py.trunc ((x0 : Rat) + maxLen + ((2 * order : Int) : Rat) + 1) = x1 at *
+  have hM : (0 : Int) ≤ (if order = 0 then (1 : Int) else 0) := by split <;> omega
+  generalize (if order = 0 then (1 : Int) else 0) = mg at *
+  have hMq : (0 : Rat) ≤ (mg : Rat) := by exact_mod_cast hM
+  have hsum : ((x1 + mg : Int) : Rat) = (x1 : Rat) + (mg : Rat) := by simp [Rat.intCast_add]
   constructor
   · rcases h2 with h2 | h2
     · have : (x0 : Rat) ≤ (i : Rat) := by grind
       exact Rat.intCast_le_intCast.mp this
     · omega
-  · refine ⟨?_, by grind⟩
+  · refine ⟨?_, by rw [hsum]; grind⟩
     have : (i : Rat) < (x1 : Rat) := by grind
-    exact Rat.intCast_lt_intCast.mp this
+    have := Rat.intCast_lt_intCast.mp this
+    omega
+
+/-- **Corner-safe nearest-neighbour loading**: with the extra voxel every sampled coordinate within
+`maxLen/2 - 1` of the centre on this axis lies inside the window (the same radius that linear
+interpolation is guaranteed; before, `order = 0` was guaranteed only `maxLen/2 - 2`: a 4³ box sampled
+coordinate 12.01 with last window index 12). -/
+theorem cs_window_order0 (c t maxLen H : Rat) (hH : H ≤ maxLen / 2 - 1) (ht1 : c - H ≤ t) (ht2 : t ≤ c + H) :
+    (((cornerSafeAxis c maxLen 0).1 : Rat) ≤ t ∨ (cornerSafeAxis c maxLen 0).1 ≤ 0)
+      ∧ t < (((cornerSafeAxis c maxLen 0).2.1 : Int) : Rat) - 1 := by
+  simp only [cornerSafeAxis, if_true]
+  generalize hq : (c - maxLen / 2 - ((0 : Int) : Rat)) = q
+  have h0 : ((0 : Int) : Rat) = 0 := by simp
+  have h1 := Py.trunc_gt q
+  have h2 := Py.trunc_le_max q
+  generalize hx0 : Py.trunc q = x0 at *
+  have h20 : ((2 * 0 : Int) : Rat) = 0 := by simp
+  have h3 := Py.trunc_gt ((x0 : Rat) + maxLen + ((2 * 0 : Int) : Rat) + 1)
+  generalize hx1 : Py.trunc ((x0 : Rat) + maxLen + ((2 * 0 : Int) : Rat) + 1) = x1 at *
+  have hsum : ((x1 + 1 : Int) : Rat) = (x1 : Rat) + 1 := by simp [Rat.intCast_add]
+  constructor
+  · rcases h2 with h2 | h2
+    · left; grind
+    · right; exact h2
+  · rw [hsum]; grind
 
 end C02
